@@ -26,6 +26,7 @@ BASE_CFG = {
     "ops": {"extend": 8, "natural_join": 5, "concat_rows": 3, "window": 3, "ordered_window": 3, "convert_records": 2},
     "reuse_bias": True,
     "shape": "diamond",
+    "shape_prob": 0.65,  # the rest are plain chains, where extend -> ordered window on the fresh column is frequent
 }
 
 INDENTS = [" ", "   ", "\t"]
